@@ -7,7 +7,10 @@
     translate/c08_sites.py:
     - [realloc_on_add]: add_ent/add_ents allocate again through __setitem__ (get_id(own ID), then store);
     - [release_on_remove]: remove_ent releases the ID although the entity keeps the key;
-    - [release_in_del]: the destructor releases the ID.
+    - [release_in_del]: the destructor releases the ID;
+    - [copy_registers] (round 3): the keyvalues a copy takes over from its source enter the new entity through
+      __setitem__ (so the 'nodeid' value is only a *desired* ID), as opposed to being written into the key
+      dictionary directly (the copy then holds the very ID of its source without owning it).
     Executable definitions only; proofs are in SM/IdNodeProofs.v. *)
 From stdpp Require Import gmap sets.
 From Coq Require Import ZArith.
@@ -25,10 +28,14 @@ Inductive nev :=
 | NRemove (k : nat)             (* remove_ent *)
 | NReAdd (k : nat)              (* add_ent of a removed entity *)
 | NGc (k : nat)                 (* __del__ *)
-| NCopy (k : nat).              (* ent.copy() then add_ent: the copied key value is the desired ID *)
+| NCopy (k : nat)               (* ent.copy() then add_ent: the copied key value is the desired ID *)
+| NReserve (d : Z).             (* round 3: instancing.Instance.fixup_key on a node-link keyvalue: get_id(d) on the
+                                   map's node_id manager, kept only in the Instance's own table -- no entity owns
+                                   the ID and nothing ever releases it (a leak, harmless for uniqueness) *)
 
 Section node.
   Variables realloc_on_add release_on_remove release_in_del : bool.
+  Variable copy_registers : bool.
 
   Definition nrelease (old : option Z) (m : idman) : idman :=
     match old with Some n => discard n m | None => m end.
@@ -55,11 +62,18 @@ Section node.
     let '(key', m2) := nadd key m1 in
     {| nman := m2; nents := nents w ++ [ {| nid := key'; nalive := true; ninmap := true |} ] |}.
 
+  (** A copy whose keyvalues bypass __setitem__: the key value is taken over as it is, the manager is not asked. *)
+  Definition ncopy_raw (key : option Z) (w : nworld) : nworld :=
+    let '(key', m) := nadd key (nman w) in
+    {| nman := m; nents := nents w ++ [ {| nid := key'; nalive := true; ninmap := true |} ] |}.
+
   Definition nstep (w : nworld) (e : nev) : nworld :=
     match e with
     | NCreate d => ncreate d w
     | NCopy k => match nents w !! k with
-                 | Some o => if nalive o then ncreate (nid o) w else w
+                 | Some o => if nalive o then
+                               if copy_registers then ncreate (nid o) w else ncopy_raw (nid o) w
+                             else w
                  | None => w end
     | NSet k d =>
         match nents w !! k with
@@ -89,6 +103,11 @@ Section node.
                       {| nman := m; nents := <[k := {| nid := key; nalive := true; ninmap := true |}]> (nents w) |}
                     else w
         | None => w end
+    | NReserve d =>
+        match get_id d (nman w) with
+        | Some (_, m) => {| nman := m; nents := nents w |}
+        | None => w
+        end
     | NGc k =>
         match nents w !! k with
         | Some o => if nalive o && negb (ninmap o) then
